@@ -10,6 +10,7 @@ package main
 
 import (
 	"fmt"
+	"runtime/debug"
 	"sort"
 	"sync"
 
@@ -183,9 +184,13 @@ func (s *shardStats) run(r *report.R, e *env, c *Case) {
 	}
 }
 
-// samples: one real case per situation label (the one from the lowest-numbered shard, so
-// the choice does not depend on scheduling).
+// samples: one real case per situation label, taken from the shard of lowest rank (a fixed
+// pseudo-random order of the shards rotated by VERIF_SEED), so that the choice does not
+// depend on scheduling and the samples come from different configurations.
 var samples = map[string]sampleOf{}
+var sampleSeed uint32
+
+func rank(shard int) uint32 { return (uint32(shard) + sampleSeed + 7) * 2654435761 }
 
 type sampleOf struct {
 	shard int
@@ -200,7 +205,7 @@ func (s *shardStats) flush(r *report.R, mu *sync.Mutex, total map[string]int64, 
 		total[k] += v
 	}
 	for k, v := range s.firsts {
-		if old, ok := samples[k]; !ok || shard < old.shard {
+		if old, ok := samples[k]; !ok || rank(shard) < rank(old.shard) {
 			samples[k] = sampleOf{shard, v}
 		}
 	}
@@ -209,6 +214,10 @@ func (s *shardStats) flush(r *report.R, mu *sync.Mutex, total map[string]int64, 
 
 func main() {
 	r := report.Start("C08", "exploration")
+	// the live heap is a few API descriptions per worker; the front end's 2000% setting lets
+	// the heap grow to gigabytes on a machine that is shared, for no measurable gain here
+	debug.SetGCPercent(600)
+	sampleSeed = uint32(r.Seed)
 	if r.Replay != "" {
 		var c Case
 		r.LoadReplay(&c)
@@ -251,6 +260,22 @@ func main() {
 	if r.Thorough() {
 		maxOp, maxGlobal = 3, 3
 	}
+	// quick leaves out two error classes and two Accept headers that thorough has
+	outcomes, accepts := allOutcomes, acceptsMain
+	if !r.Thorough() {
+		outcomes = nil
+		for _, o := range allOutcomes {
+			if o != "err-405" && o != "err-custom" {
+				outcomes = append(outcomes, o)
+			}
+		}
+		accepts = nil
+		for i, a := range acceptsMain {
+			if i != 11 && i != 15 { // "application/json, text/plain" (mirror of #10) and "application/x-unreg"
+				accepts = append(accepts, a)
+			}
+		}
+	}
 	var keysMain []docKey
 	for _, l := range lists(len(producesAlphabet), maxOp) {
 		keysMain = append(keysMain, docKey{"op", l})
@@ -268,8 +293,8 @@ func main() {
 		"response_sets":        responseSets,
 		"request_shapes":       opShapes,
 		"stage_failure_shapes": stageShapes,
-		"accept_headers":       renderAll(acceptsMain),
-		"handler_outcomes":     allOutcomes,
+		"accept_headers":       renderAll(accepts),
+		"handler_outcomes":     outcomes,
 		"entry_points":         []string{"untyped", "typed"},
 	})
 	enum.Parallel(len(keysMain), r.OutOfTime, func(i int) {
@@ -286,13 +311,13 @@ func main() {
 			c := Case{Sweep: "main", Mode: mode, Produces: produces, Where: k.where}
 			for _, via := range vias {
 				c.Via = via
-				for _, acc := range acceptsMain {
+				for _, acc := range accepts {
 					c.NoAccept, c.Accept = acc == nil, acc
 					for _, rs := range responseSets {
 						c.Responses = rs
 						for _, sh := range opShapes {
 							c.Method, c.Body, c.Target = sh.Method, sh.Body, sh.Target
-							for _, oc := range allOutcomes {
+							for _, oc := range outcomes {
 								c.Outcome = oc
 								st.run(r, e, &c)
 							}
